@@ -115,16 +115,22 @@ def _audit_file(pid, relname, res):
 # Theorems shared by several properties: the analytic bridge B1 (Gauss/Bridge*.v, GaussInt.v: the algebraic moment
 # functional E IS the normalised Gaussian integral over R) backs every separable-integral property.  It is audited
 # with C16 (integrals and evaluations describe the same functions) on every run, with the others in the thorough tier.
-SHARED = {"BRIDGE": {"always": ("C16",), "thorough": ("C01", "C02", "C07", "C08")}}
+SHARED = [
+    # (Props file, properties that audit it on every run, properties that audit it in the thorough tier)
+    ("BRIDGE_value.v", ("C16",), ("C01", "C02", "C07", "C08")),   # B1 closed: Gaussian integral proved
+    ("BRIDGE_3d.v", ("C16",), ("C01", "C02", "C07", "C08")),      # model block entries = iterated integrals over R^3
+    ("BRIDGE.v", (), ("C16", "C01", "C02", "C07", "C08")),        # uniqueness / kills-derivatives development
+    ("BRIDGE_boys.v", (), ("C03", "C14", "C16")),                 # Phi with Boys values = t-integral over [0,1]
+]
 
 
 def props_files(pid, tier=None):
     """Props/<pid>.v plus any Props/<pid>_*.v (a property's theorems may be spread over several files)."""
     d = os.path.join(COQ, "Props")
     names = [pid + ".v"] + sorted(n for n in os.listdir(d) if n.startswith(pid + "_") and n.endswith(".v"))
-    for stem, who in SHARED.items():
-        if pid in who["always"] or (tier == "thorough" and pid in who["thorough"]):
-            names += sorted(n for n in os.listdir(d) if (n == stem + ".v" or n.startswith(stem + "_")) and n.endswith(".v"))
+    for fn, always, thorough in SHARED:
+        if (pid in always or (tier == "thorough" and pid in thorough)) and os.path.exists(os.path.join(d, fn)):
+            names.append(fn)
     return [os.path.join("Props", n) for n in names]
 
 
